@@ -201,3 +201,17 @@ package doif
 //@     pure
 //@   callee Nanoseconds() (v)
 //@     pure
+
+// compare: the six comparisons are those of the integers themselves, for every pair
+// of values (no difference that can overflow).
+
+//@ func (cmpOperation).compare
+//@   option allow-panic yes
+//@   option mode bv64
+//@   pure
+//@   ensures c == cmpOpLess ==> result == (lhs < rhs)
+//@   ensures c == cmpOpLessOrEqual ==> result == (lhs <= rhs)
+//@   ensures c == cmpOpGreater ==> result == (lhs > rhs)
+//@   ensures c == cmpOpGreaterOrEqual ==> result == (lhs >= rhs)
+//@   ensures c == cmpOpEqual ==> result == (lhs == rhs)
+//@   ensures c == cmpOpNotEqual ==> result == (lhs != rhs)
